@@ -81,6 +81,9 @@ def _sim_task(args):
     for i, prog in enumerate(progs):
         rnd = random.Random(sd * 1000003 + first + i)
         cases += D.observe(prog, 'sim%d' % (first + i), 'sim', d, i, rnd, D.BIN_MODES, _vectors(first + i, quick))
+        if (first + i) % 3 == 0:      # ... and moved to page 0, where 8-bit immediates equal instruction addresses
+            cases += D.observe(D.lowbase(prog), 'sim%d.low' % (first + i), 'sim', d, i, rnd, D.BIN_MODES,
+                               _vectors(first + i + 7, quick), base=100)
     shutil.rmtree(d, ignore_errors=True)
     return cases
 
@@ -264,7 +267,7 @@ def replay(path):
     wd = workdir('c04-replay')
     cbuild.repo_only()
     cases = D.observe(rp['prog'], rp['key'], rp['gen'], wd, 0, None, [(rp['am'], rp['fm'])], D.VECTORS, probe=rp.get('probe', 0),
-                      base=rp.get('base', D.BASE))
+                      base=rp.get('base', D.BASE), text=rp.get('text'))
     r, fails = tlc.judge('doc', 'SubFixCases', 'SubFixCases.cfg', [_slim(c) for c in cases], casefile=os.path.join(wd, 'cases.json'), env=JENV)
     for i, clause in fails:
         print('  ' + _describe(cases[i], clause)[:1500])
